@@ -207,6 +207,12 @@ func vFanOut(enc *json.Encoder, base int, hstart int, srv *ircserver.IRCServer, 
 			return n
 		}
 		d := &vReplica{srv: cp, direct: true}
+		// C01: a second fork receives the same probe(s); the two must agree byte for byte
+		cp2 := ircserver.NewIRCServer(vNet, time.Unix(1500003600, 0))
+		if _, err := cp2.Unmarshal(b); err != nil {
+			return n
+		}
+		d2 := &vReplica{srv: cp2, direct: true}
 		h := hstart + n
 		n++
 		enc.Encode(&vRecord{K: "reset", H: h, Base: base, Post: cp.VerifProject(), Out: []vReply{}, Lookup: [][]interface{}{}})
@@ -226,6 +232,15 @@ func vFanOut(enc *json.Encoder, base int, hstart int, srv *ircserver.IRCServer, 
 			rec.Out = vProjectReplies(msgs)
 			rec.Lines = vCheckLines(msgs)
 			rec.Rids = vCheckRids(msgs, x.Id)
+			if msgs2, p2 := d2.apply(x); p2 != "" {
+				rec.Det = "second fork panicked: " + p2
+			} else if dd := vSameOut(msgs, msgs2); dd != "" {
+				rec.Det = "second fork: " + dd
+			} else if idx == 0 {
+				if sd := vStateDiff(vCanon(cp), vCanon(cp2)); sd != "" {
+					rec.Det = "second fork: " + sd
+				}
+			}
 			enc.Encode(rec)
 			if idx == 0 && vMutating(e) && n%vBatteryEvery == 0 {
 				steps = append(steps, vBattery(rec.Post)...)
